@@ -270,6 +270,7 @@ func genExts(t *rapid.T, tr memfs.Tree, max int, namePool int) []recext.ExtSpec 
 			PkgsMod:  rapid.IntRange(0, 2).Draw(t, "pkgs_mod"),
 			NamePool: namePool,
 		}
+		s.PrefixNames = rapid.IntRange(0, 3).Draw(t, "prefix_names") == 0
 		if rapid.IntRange(0, 3).Draw(t, "has_err") == 0 {
 			s.ErrMod = 3
 		}
